@@ -313,11 +313,46 @@ func runFree(in sx.Tree) sx.Tree {
 	// with some discarding subtree stalled, everybody else must still be able to go on: the source finishes
 	// emitting (nobody upstream of the stalled nodes waits for them)
 	stallOK := int64(1)
+	stallInfo := []sx.Tree{}
+	cut := int64(-1)
 	if stalled {
 		select {
 		case <-r.srcEnded:
 		case <-time.After(4 * time.Second):
 			stallOK = 0
+		}
+		// wait until nothing moves any more (everybody except the stalled subtrees is done), then take stock
+		prev, stable := int64(-1), 0
+		for i := 0; i < 400 && stable < 6; i++ {
+			time.Sleep(5 * time.Millisecond)
+			r.mu.Lock()
+			a := r.activity
+			r.mu.Unlock()
+			if a == prev {
+				stable++
+			} else {
+				stable = 0
+				prev = a
+			}
+		}
+		// two stock-takings 300 ms apart: a delivery that was merely in flight at the first one has landed by
+		// the second, a sender really waiting for a stalled node is still waiting
+		for round := 0; round < 2; round++ {
+			if round == 1 {
+				time.Sleep(300 * time.Millisecond)
+			}
+			r.mu.Lock()
+			c0 := int64(len(r.trace))
+			r.mu.Unlock()
+			if round == 0 {
+				cut = c0
+			}
+			for _, c := range tab {
+				if r.stall[r.idOf[c.Config.ID]] {
+					_, _, _, _, disc := counters(c.Config.ID)
+					stallInfo = append(stallInfo, sx.Ints(r.idOf[c.Config.ID], int64(len(c.Ch)), disc, c0))
+				}
+			}
 		}
 		close(r.stallCh)
 	}
@@ -340,5 +375,5 @@ func runFree(in sx.Tree) sx.Tree {
 		recv, proc, filt, fail, disc := counters(c.Config.ID)
 		ks = append(ks, sx.Ints(recv, proc, filt, fail, disc))
 	}
-	return sx.T(netd, sx.T(tr...), sx.T(ks...), sx.L(stallOK))
+	return sx.T(netd, sx.T(tr...), sx.T(ks...), sx.T(sx.L(stallOK), sx.L(cut), sx.T(stallInfo...)))
 }
